@@ -315,3 +315,98 @@ class FakeDevice:
         if on and not self.srv: self.srv = await asyncio.start_server(self.handle, self.ip, self.port)
         if not on and self.srv:
             self.srv.close(); self.srv = None; await asyncio.sleep(0)
+
+
+# ---------------------------------------------------------------- a running bridge fed over loopback UDP
+def free_udp_ports(n):
+    import socket
+    socks = [socket.socket(socket.AF_INET, socket.SOCK_DGRAM) for _ in range(n)]
+    for s in socks: s.bind(("0.0.0.0", 0))
+    ps = [s.getsockname()[1] for s in socks]
+    for s in socks: s.close()
+    return ps
+
+
+async def feed_bridge(n_ports, events, raising=(), show=None, sentinel=None):
+    """events: [(port index, datagram bytes)] sent in order from one socket in paced bursts, then one sentinel per port as
+    delivery barrier.  Returns (callback log [rendered device], loop-exception-handler calls, warnings).
+    `raising`: indices of callback invocations (global count) on which the user's callback raises."""
+    import socket, warnings
+    from aioswitcher.bridge import SwitcherBridge
+    ports = free_udp_ports(n_ports); log = []; handler = []; seen_sentinel = set()
+    loop = asyncio.get_running_loop()
+    old = loop.get_exception_handler()
+    loop.set_exception_handler(lambda l, ctx: handler.append(type(ctx.get("exception")).__name__))
+    def cb(dev):
+        if dev.name.startswith("SENTINEL"):
+            seen_sentinel.add(dev.name); return
+        k = len(log); log.append(show(dev))
+        if k in raising: raise KeyError("user callback failure %d" % k)
+    bridge = SwitcherBridge(cb, ports)
+    tx = socket.socket(socket.AF_INET, socket.SOCK_DGRAM)
+    with warnings.catch_warnings(record=True) as w:
+        warnings.simplefilter("always")
+        await bridge.start()
+        try:
+            for i, (p, d) in enumerate(events):
+                tx.sendto(d, ("127.0.0.1", ports[p]))
+                if i % 8 == 7: await asyncio.sleep(0)
+            for p in range(n_ports): tx.sendto(sentinel(p), ("127.0.0.1", ports[p]))
+            for _ in range(3000):
+                if len(seen_sentinel) == n_ports: break
+                await asyncio.sleep(0.001)
+            complete = len(seen_sentinel) == n_ports
+        finally:
+            await bridge.stop(); tx.close(); await asyncio.sleep(0)
+            loop.set_exception_handler(old)
+        nwarn = len([x for x in w if "unknown" in str(x.message)])
+    return log, len(handler), nwarn, complete
+
+
+# ---------------------------------------------------------------- zones
+def tzif(zone):
+    """(default offset, [(utc transition second, offset)]) from the TZif v2+ 64-bit block of /usr/share/zoneinfo"""
+    d = open("/usr/share/zoneinfo/" + zone, "rb").read()
+    def hdr(o):
+        assert d[o:o + 4] == b"TZif"; return d[o + 4], struct.unpack(">6l", d[o + 20:o + 44])
+    v, (isut, isstd, leap, timecnt, typecnt, charcnt) = hdr(0)
+    o = 44 + timecnt * 4 + timecnt + typecnt * 6 + charcnt + leap * 8 + isstd + isut
+    v, (isut, isstd, leap, timecnt, typecnt, charcnt) = hdr(o); o += 44
+    times = struct.unpack(">%dq" % timecnt, d[o:o + 8 * timecnt]); o += 8 * timecnt
+    idx = d[o:o + timecnt]; o += timecnt
+    types = [struct.unpack(">lBB", d[o + 6 * i:o + 6 * i + 6]) for i in range(typecnt)]
+    default = next((t[0] for t in types if not t[1]), types[0][0])
+    return default, [(t, types[i][0]) for t, i in zip(times, idx)]
+
+
+def zone_args(zone):
+    zd, tr = tzif(zone)
+    return zd, [[a, b] for a, b in tr]
+
+
+def zone_job(zone, job, cases, timeout=600):
+    """run harness/zonework.py under TZ=zone"""
+    import json, subprocess
+    env = dict(os.environ, TZ=zone, PYTHONPATH=lib.REPO_SRC, PYTHONHASHSEED="0")
+    p = subprocess.run([sys.executable, os.path.join(lib.ROOT, "harness", "zonework.py")], input=json.dumps({"job": job, "cases": cases}),
+                       capture_output=True, text=True, timeout=timeout, env=env)
+    if p.returncode != 0: raise lib.BuildError("zone worker failed under TZ=%s: %s" % (zone, p.stderr.strip()[-300:]))
+    return json.loads(p.stdout)
+
+
+def transitions_in(zone, lo, hi):
+    return [t for t, _ in tzif(zone)[1] if lo < t < hi]
+
+
+ZONES_QUICK = ["UTC", "Asia/Jerusalem", "America/New_York", "Australia/Lord_Howe", "Asia/Kathmandu", "Pacific/Kiritimati",
+               "Pacific/Pago_Pago", "America/St_Johns"]
+ZONES_MORE = ["Europe/London", "Europe/Berlin", "Asia/Tokyo", "Asia/Kolkata", "Australia/Sydney", "America/Sao_Paulo", "Africa/Casablanca",
+              "Pacific/Chatham", "America/Los_Angeles", "Asia/Tehran", "Atlantic/Azores", "Pacific/Apia"]
+
+
+def interesting_instants(rnd, zone, n, lo=1_000_000_000, hi=2_100_000_000):
+    tr = transitions_in(zone, lo, hi); out = []
+    for _ in range(n):
+        if tr and rnd.random() < .45: out.append(rnd.choice(tr) + rnd.randrange(-90000, 90000))
+        else: out.append(rnd.randrange(lo, hi))
+    return out
